@@ -2,8 +2,9 @@
 (* code -> spec: validates observations recorded from the real attribute      *)
 (* package against AttrModel.  One line per step:                              *)
 (*  New    {sc, kesc, vals, nregs} new scenario: kesc[k] = escaped text of key *)
-(*                                rank k; vals = value pool [t, x, e] with e = *)
-(*                                the text of the value in the default encoding*)
+(*                                rank k; vals = value pool [t, x, e, r]: e =  *)
+(*                                the text of the value in the default         *)
+(*                                encoding, r = its text in MarshalLog         *)
 (*                                nregs = number of Set registers              *)
 (*  Build  {dst, how, list, pred, obs{slice, after, dropped, len, selfEq}}     *)
 (*  Filter {src, dst, pred, obs{slice, dropped, orig, selfEq}}                 *)
@@ -11,7 +12,8 @@
 (*  Record {src, obs{idx, size}}  real map keyed by Equivalent(): 1-based      *)
 (*                                insertion index of the entry hit (size+1=new)*)
 (*  Cmp    {a, b, obs{eq, eqr, key}}                                           *)
-(*  Obs    {src, obs{slice, len, iter, look, get, ghost, enc, selfEq}}         *)
+(*  Obs    {src, obs{slice, len, iter, look, get, ghost, enc, mlog, mjson,     *)
+(*                           selfEq}}                                          *)
 (*  Enc    {src, obs{enc}}        Set.Encoded(DefaultEncoder()) alone          *)
 (*  ItOpen {it, kind, a, b}       iterator variable it := regs[a].Iter()  or   *)
 (*                                NewMergeIterator(regs[a], regs[b])           *)
@@ -39,6 +41,12 @@ Chk(c, kind, nan) == (~c) => Viol([line |-> l, sc |-> E.sc, ev |-> E.ev, kind |-
 
 VText(a) == vals[CHOOSE i \in DOMAIN vals : vals[i].t = a.t /\ vals[i].x = a.x].e
 VTexts(s) == [i \in DOMAIN s |-> VText(s[i])]
+(* Set.MarshalLog: key -> Value.Emit() text, here as [key rank, text] in key order; vals[i].r is that text *)
+RText(a) == vals[CHOOSE i \in DOMAIN vals : vals[i].t = a.t /\ vals[i].x = a.x].r
+MLog(s) == [i \in DOMAIN s |-> [k |-> s[i].k, v |-> RText(s[i])]]
+(* Set.MarshalJSON, decoded again by the harness: the contents; encoding/json refuses NaN and infinities *)
+NonFinite == {"nan", "nan2", "inf", "-inf"}
+HasNonFinite(s) == \E i \in DOMAIN s : s[i].t \in {"f64", "f64s"} /\ \E j \in DOMAIN s[i].x : s[i].x[j] \in NonFinite
 
 Init == l = 1 /\ kesc = <<>> /\ vals = <<>> /\ regs = <<>> /\ table = <<>> /\ its = EmptyIts
 
@@ -109,6 +117,9 @@ TObs == /\ Is("Obs")
               /\ Chk(E.obs.get = GetAll(s), "get", nan)
               /\ Chk(~E.obs.ghost, "look", nan)
               /\ Chk(E.obs.enc = Enc(s, kesc, VTexts(s)), "enc", nan)
+              /\ Chk(E.obs.mlog = MLog(s), "marshal-log", nan)
+              /\ Chk(E.obs.mjson.err => HasNonFinite(s), "marshal-json", nan)
+              /\ Chk(~E.obs.mjson.err => E.obs.mjson.attrs = s, "marshal-json", nan)
               /\ Chk(E.obs.selfEq, "selfeq", nan)
         /\ Adv /\ UNCHANGED <<kesc, vals, regs, table, its>>
 
